@@ -1,5 +1,5 @@
 #!/usr/bin/env python3
-"""Generate the prompt for a seeding sub-agent: mkprompt.py <Cxx> <root>   (prints to stdout)
+"""Generate the prompt for a seeding sub-agent: mkprompt.py <Cxx> <root> [round]   (prints to stdout)
 The agent sees only the property text and its scratch worktree; nothing from /verif."""
 import json, os, re, sys, glob
 HERE = os.path.dirname(os.path.abspath(__file__))
@@ -11,7 +11,11 @@ for line in open(os.path.join(VERIF, "properties.jsonl")):
     if d["id"] == prop:
         P = d
 wt = "%s/%s" % (root, prop)
-tpl = open(os.path.join(HERE, "seed_round5_template.txt")).read()
+rnd = sys.argv[3] if len(sys.argv) > 3 else "5"
+tpl = open(os.path.join(HERE, "seed_round%s_template.txt" % rnd)).read()
+if rnd == "6":
+    a, b = json.load(open(os.path.join(HERE, "seed_round6_sites.json")))[prop]
+    tpl = tpl.replace("<FILE_A>", a).replace("<FILE_B>", b)
 out = tpl.replace("<WORKTREE>", wt).replace("<PROP>", prop).replace("<TITLE>", P["title"]).replace("<STATEMENT>", P["statement"]) \
     .replace("<QUANT>", P["quantifier"]["text"]).replace("<WHY>", P["why_tests_cant"])
 print(out)
